@@ -37,8 +37,9 @@ func effectsGrammar(full bool) *gen.Grammar {
 	g := gen.NewGrammar()
 	N, B := gen.Num, gen.Bool
 	g.Atom(B, trT(gen.BoolT(true)), trT(gen.BoolT(false)),
-		gen.SubT(gen.ListT(gen.BoolT(true)), gen.NumT(9)))
-	g.Atom(N, trT(gen.NumT(1)), gen.Infix("%", gen.NumT(1), gen.NumT(0)))
+		gen.SubT(gen.ListT(gen.BoolT(true)), gen.NumT(9)),
+		gen.BoolT(true), gen.BoolT(false)) // bare literals: constant operands next to effectful ones
+	g.Atom(N, trT(gen.NumT(1)), gen.Infix("%", gen.NumT(1), gen.NumT(0)), gen.NumT(7))
 	if full {
 		g.Atom(N, trT(gen.NumT(0)),
 			gen.SubT(gen.ListT(gen.NumT(0)), gen.NumT(9)),
